@@ -634,6 +634,24 @@ def _for_continue_edits(src, m, bo, bc, inner):
                         handled = True
         if not handled and _is_tail(m, co, ce, bo, bc):
             out.append(Edit(co, ce, "{ /* D23: continue */ }", "rule", "D23"))
+            handled = True
+        if not handled and eo > bo and m[eo + 1:rs.match_close(m, eo)].strip() in ("continue;", "continue"):
+            # `if COND { continue; } REST }`  ->  `if COND { } else { REST } }` when the `if` statement's block is in tail position
+            ss = eo
+            while ss > bo + 1 and m[ss - 1] not in ";{}":
+                ss -= 1
+            head = m[ss:eo].strip()
+            ec = rs.match_close(m, eo)
+            nxt = re.compile(r"\s*else\b").match(m, ec + 1)
+            if head.startswith("if ") and not nxt:
+                stmt_start = ss + (len(m[ss:eo]) - len(m[ss:eo].lstrip()))
+                blk_open = _enclosing_open(m, stmt_start, bo)
+                if blk_open >= bo:
+                    blk_close = rs.match_close(m, blk_open)
+                    if _is_tail(m, stmt_start, blk_close, bo, bc):
+                        out.append(Edit(co, ce, "/* D23: continue */", "rule", "D23"))
+                        out.append(Edit(ec + 1, ec + 1, " else { /* D23: the rest of the iteration */", "rule", "D23"))
+                        out.append(Edit(blk_close, blk_close, "} ", "rule", "D23"))
     return out
 
 
